@@ -1,6 +1,7 @@
 import Liquid.Eval
 import Proofs.ExprRoundTrip
 import Proofs.ExprShowLex
+import Proofs.ExprParseImage
 /-!
 # C08 — expressions: literals, variable/property/index lookup and filter pipelines
 -/
@@ -287,3 +288,36 @@ example : parseExprSource [9, 40, 32, 97, 10, 46, 98, 32, 91, 45, 49, 13, 93, 32
 example : parseExprSource (spacedText (fun _ => [10]) (Expr.filter (.var [120]) [102] [.lit (.int .int 1), .lit (.str [97, 32, 98])]).lexemes ++ [9]) =
     .ok (.filter (.var [120]) [102] [.lit (.int .int 1), .lit (.str [97, 32, 98])]) :=
   show_any_whitespace _ (by decide +kernel) _ _ ⟨fun _ => rfl, fun _ _ => by simp⟩ rfl
+
+/-! ## The parser's image (`Proofs/ExprScanImage.lean`, `Proofs/ExprParseImage.lean`)
+
+Every token the scanner returns is well formed (`lex_scanOK`: identifier / keyword / property tokens carry the
+text of an identifier, an identifier token is none of `true false nil and or contains in`, an integer literal is
+within int64, a string literal does not contain its own quote), and every leaf of the tree the parser builds is
+the content of one of its tokens (`parse_lvAll`). So a parsed tree is printable as soon as the values of its float
+literals are (`floatOK`: the exact decimal expansion `showFloat q` reads back as `q`). That this holds for every
+`float64` the scanner produces (`roundF64` is idempotent, and the exact expansion of a dyadic rational denotes
+it) is NOT proved; the stream `eshow` checks it on every generated case.
+
+Full statements (not proved): `parseExprSource s = .ok e → e.printable` and
+`parseExprSource s = .ok e → parseExprSource e.show = .ok e`, for all `s`. -/
+
+/-- **C08 (the parser's image is printable, up to float values).** A tree parsed from a source text whose float
+    literal tokens have printable values is printable. -/
+theorem parse_image_printable_partial (s : Bytes) (e : Expr) (h : parseExprSource s = .ok e)
+    (hf : (lex s).1.all floatOK = true) : e.printable = true := printable_of_parse s e h hf
+
+/-- **C08 (normalisation is idempotent, text).** Whatever text parses to `e` - any spelling, any white space,
+    redundant parentheses, leading zeros - the printed text of `e` parses to `e` again. -/
+theorem show_parse_source_partial (s : Bytes) (e : Expr) (h : parseExprSource s = .ok e)
+    (hf : (lex s).1.all floatOK = true) : parseExprSource e.show = .ok e :=
+  parse_show_source_all e (printable_of_parse s e h hf)
+
+/-- `( a .b [ 01 ]|f:'x"',-02 )and(c or(d.e)contains's')` parses to `rtExTree`, whose printed text is `rtExText` -/
+example : parseExprSource rtExText = .ok rtExTree := by
+  have := show_parse_source_partial [40, 32, 97, 32, 46, 98, 32, 91, 32, 48, 49, 32, 93, 124, 102, 58, 39, 120, 34, 39, 44,
+    45, 48, 50, 32, 41, 97, 110, 100, 40, 99, 32, 111, 114, 40, 100, 46, 101, 41, 99, 111, 110, 116, 97, 105, 110, 115, 39,
+    115, 39, 41] rtExTree rfl rfl
+  rwa [show rtExTree.show = rtExText from by decide +kernel] at this
+/-- the float hypothesis on `1.50 | f: 0.1`: both literal values (3/2 and the double nearest to 0.1) are printable -/
+example : (lex [49, 46, 53, 48, 32, 124, 32, 102, 58, 32, 48, 46, 49]).1.all floatOK = true := by decide +kernel
